@@ -1,6 +1,6 @@
 #!/usr/bin/env python3
 """Re-run ALL twenty quick checks on every recorded behaviour-preserving rewrite (refactors/*/patch.diff) and refresh meta.json['alarms'].
-usage: tools/refall.py [id-prefix ...]"""
+usage: tools/refall.py [id-prefix ...]   (REFALL_OWN=1: only the owning property's check, meta.json left alone)"""
 import json, os, re, shutil, subprocess, sys, tempfile
 from concurrent.futures import ThreadPoolExecutor
 V = os.path.dirname(os.path.dirname(os.path.abspath(__file__)))
@@ -21,14 +21,21 @@ def one(d):
             env = dict(os.environ, VERIF_REPO=repo, VERIF_EVIDENCE_DIR=os.path.join(work, 'ev'), VERIF_OUT_DIR=os.path.join(work, 'out'), VERIF_SELFTEST_CHILD='1')
             q = subprocess.run('%s/check %s quick' % (V, c), shell=True, env=env, capture_output=True, text=True)
             return c, q.returncode, re.findall(r'key=(\S+)', q.stdout)[:4]
+        todo = ALL
+        if os.environ.get('REFALL_OWN'):
+            # quick regression after a rule-level change: only the property the rewrite was written against (and the ones it lists)
+            mp0 = os.path.join(d, 'meta.json')
+            m0 = json.load(open(mp0)) if os.path.exists(mp0) else {}
+            todo = sorted({m0.get('property') or rid.split('-')[0]} | set(m0.get('recheck', [])))
         with ThreadPoolExecutor(max_workers=5) as ex:
-            for c, rc, keys in ex.map(chk, ALL):
+            for c, rc, keys in ex.map(chk, todo):
                 if rc != 0:
                     alarms[c] = {'exit': rc, 'keys': keys}
         mp = os.path.join(d, 'meta.json')
         m = json.load(open(mp)) if os.path.exists(mp) else {'id': rid}
-        m['alarms'] = alarms
-        json.dump(m, open(mp, 'w'), indent=1)
+        if not os.environ.get('REFALL_OWN'):
+            m['alarms'] = alarms
+            json.dump(m, open(mp, 'w'), indent=1)
         return rid, alarms
     finally:
         shutil.rmtree(work, ignore_errors=True)
